@@ -21,11 +21,15 @@ var (
 )
 
 func TestMain(m *testing.M) {
+	if os.Getenv("VERIF_PERM_CHILD") != "" {
+		permChild() // the unprivileged child of the permission-denied family (perm_test.go)
+		os.Exit(0)
+	}
 	rec01.SetRule("(tree state, request) pairs served by webdav.Handler over LocalFileSystem on a real directory and compared with the abstract RFC 4918 model: engine A = product of all 361 trees over names {a,b} (depth <= 2, contents '1'/'22') with a fixed request set (every method x 8 paths; PROPFIND x Depth x body form; COPY/MOVE x 8 sources x 12 destination forms x Depth x Overwrite; conditional PUT/DELETE) - complete in the thorough tier, a fixed-seed sample in the quick tier; a third of the pairs is repeated under a renaming of the two names ({..b,b}, {a,...}, {'a b',a%41}, {.a,a.}, {-,e-acute}, {n,n.bak}, {ab,a}, {a.html,b}, {a,b.html}) or another spelling of the request paths (trailing slash on target and/or destination, '/./', '//'); engine B = rapid state-machine histories over 8 names with URL/XML metacharacters, depth <= 4, contents up to 256 KiB. non-trivial = the request touches an existing resource (target, source, destination or required parent); distinct by (canonical tree, request)")
-	rec02.SetRule("same exploration as C01 plus a cross-device / disk-full family (COPY, MOVE, PUT, MKCOL, DELETE between the main file system and a 128 kB tmpfs mounted on a collection, empty and filled to the last byte) plus PUT bodies that fail after k bytes (every k for bodies <= 64 bytes, offsets around the 32 KiB copy buffer for large ones; plain error, unexpected EOF, cancelled context) against absent and existing targets; model-free oracle: any response >= 400 must leave the on-disk tree (names, kinds, bytes) unchanged. non-trivial = response >= 400 while some resource the request names exists; distinct by (canonical tree, request)")
-	rec17.SetRule("every response of the C01/C02 exploration plus a failure-mode enumerator (ENOENT, EEXIST, EISDIR, ENOTDIR, ENOTEMPTY, EINVAL, ENAMETOOLONG, ELOOP; root reached directly and through a symlinked parent) and a cross-device / disk-full family (EXDEV, ENOSPC on a 128 kB tmpfs mounted inside the served directory) is scanned (all header values and the body) for the random tokens in the served directory's host path, the configured root string and its symlink-resolved form. non-trivial = response >= 400 with a non-empty body; distinct by (canonical tree, request)")
+	rec02.SetRule("same exploration as C01 plus a cross-device / disk-full family (COPY, MOVE, PUT, MKCOL, DELETE between the main file system and a 128 kB tmpfs mounted on a collection, empty and filled to the last byte) and a permission-denied family (every method on a fixture with writable, read-only, unreadable, untraversable and partly removable parts, served in a child process running as uid 65534) plus PUT bodies that fail after k bytes (every k for bodies <= 64 bytes, offsets around the 32 KiB copy buffer for large ones; plain error, unexpected EOF, cancelled context) against absent and existing targets; model-free oracle: any response >= 400 must leave the on-disk tree (names, kinds, bytes) unchanged. non-trivial = response >= 400 while some resource the request names exists; distinct by (canonical tree, request)")
+	rec17.SetRule("every response of the C01/C02 exploration plus a failure-mode enumerator (ENOENT, EEXIST, EISDIR, ENOTDIR, ENOTEMPTY, EINVAL, ENAMETOOLONG, ELOOP; root reached directly and through a symlinked parent) and a cross-device / disk-full family (EXDEV, ENOSPC on a 128 kB tmpfs mounted inside the served directory) and a permission-denied family (EACCES: requests served in a child process running as uid 65534) is scanned (all header values and the body) for the random tokens in the served directory's host path, the configured root string and its symlink-resolved form. non-trivial = response >= 400 with a non-empty body; distinct by (canonical tree, request)")
 	for _, r := range []*vev.Rec{rec01, rec02, rec17} {
-		r.Assume("EACCES and EIO cannot be produced in this sandbox (root user); EXDEV and ENOSPC are produced by the mount-mode family (a 128 kB tmpfs mounted inside the served directory) where mounting is permitted, and skipped - counted as mount-modes/skipped-mount-refused - where it is not", "names never contain '/' or NUL and are not '.' or '..' (C03 covers those)")
+		r.Assume("EIO cannot be produced in this sandbox; EXDEV and ENOSPC are produced by the mount-mode family (a 128 kB tmpfs mounted inside the served directory) and EACCES by the permission-denied family (each request served in a child process running as uid 65534) where the sandbox permits mounting / changing uid, and skipped - counted as mount-modes/skipped-... and perm-modes/skipped-... - where it does not", "names never contain '/' or NUL and are not '.' or '..' (C03 covers those)")
 	}
 	rec01.Assume("entity tags are never predicted, only their shape (quoted string) and agreement with HEAD; MIME types are not asserted", "DELETE / is modelled single-step: everything below the root goes, whether the root directory itself remains is not asserted")
 	vev.Main(m)
